@@ -224,7 +224,7 @@ def check(I, spec, opts, os_, leaf, waited, sh, tty, capture):
             else:
                 wr = [objkey(w[0], n) for w in os_.wrote if w[2] and w[2] != lit('\n')]
                 expect(I, wr == [fout], 'builtin-output-target', dict(wrote=wr, want=fout))
-                opened = [(''.join(chr(c) for c in pth), 'a' if m.startswith('a') else 'w') for pth, m, ok in os_.opened]
+                opened = [(''.join(chr(c) for c in pth), 'a' if m.startswith('a') else 'w') for pth, m, ok in os_.opened if pth != lit('/dev/null')]
                 want_open = [(o[1], o[2]) for o in opens]
                 expect(I, sorted(set(opened)) == sorted(set(want_open)), 'builtin-files-opened', dict(opened=opened, want=want_open))
         return
@@ -280,7 +280,7 @@ def run_instance(prog, inst, tier, seed, deadline):
     def on_violation(l, I):
         os_ = I.h_os
         return dict(label=l.msg, line=I.h_line, spec_name=spec['name'], opts=opts, role=str(os_.role), detail=json.loads(json.dumps(l.payload, default=str)),
-                    inputs=l.inputs, key='%s:%s' % (l.msg, 'builtin' if any(s['builtin'] for s in spec['stages']) else 'ext'))
+                    inputs=l.inputs, key='%s:%s:%s' % (l.msg, 'builtin' if any(s['builtin'] for s in spec['stages']) else 'ext', spec['name'].split(':')[-1].replace('-tight', '')))
     def on_panic(l, I):
         if l.status == 'exit': return None
         return dict(label='crash', line=I.h_line, spec_name=spec['name'], opts=opts, msg=l.msg, key='crash:' + str(l.msg)[:40], inputs=l.inputs)
@@ -370,7 +370,23 @@ def native_check(spec, nofile=None, timeout=15):
             last = shell_out.strip().split('\n')[-1] if shell_out.strip() else ''
             # with a builtin `minfd` as last stage of the line its output also lands here; the trailing `; minfd` is the probe
             if last != '3': problems.append('the shell\'s lowest free descriptor after the line is %r (expected 3): descriptors leaked or lost' % last)
-        created = sorted(set(os.listdir(d)) - {'f1', 'f2', 'reports.jsonl', 'shell.out', 'shell.err'})
+        if n == 1 and spec['stages'][0]['builtin'] and not spec.get('capture') and not spec.get('unopenable'):
+            fin, fout, ferr, opens = reference_child(spec, 0, False)
+            def digits(pth):
+                try: return [x for x in open(pth).read().split('\n') if x.strip().isdigit()]
+                except OSError: return []
+            sinks = {'shell.out': digits(os.path.join(d, 'shell.out')), 'shell.err': digits(os.path.join(d, 'shell.err'))}
+            for f in ('f1', 'f2'): sinks[f] = digits(os.path.join(d, f))
+            want_sink = 'shell.out' if fout == ('tty', 'out') else 'shell.err' if fout == ('tty', 'err') else fout[1]
+            got = {k: len(v) - (1 if k == 'shell.out' else 0) for k, v in sinks.items()}     # the trailing probe prints one number to the shell's stdout
+            where = sorted(k for k, c in got.items() if c > 0)
+            if where != [want_sink]: problems.append('the builtin\'s output went to %s, expected %s' % (where or 'nowhere', want_sink))
+        if spec.get('unopenable') and any(s['builtin'] for s in spec['stages']):
+            env2 = dict(env); out2 = os.path.join(d, 'r2.jsonl'); env2['ARGV_OUT'] = out2
+            subprocess.run([CICADA, '-c', line + ' && c3'], cwd=d, env=env2, stdin=subprocess.DEVNULL, stdout=subprocess.PIPE, stderr=subprocess.PIPE, timeout=timeout)
+            if os.path.exists(out2) and any(json.loads(x)['name'] == 'c3' for x in open(out2)):
+                problems.append('the builtin reported status 0 although its redirection target cannot be opened')
+        created = sorted(set(os.listdir(d)) - {'f1', 'f2', 'reports.jsonl', 'shell.out', 'shell.err', 'r2.jsonl'})
         wanted = set(o[1] for k in range(n) for o in reference_child(spec, k, False)[3])
         stray = [c for c in created if c not in wanted]
         if stray: problems.append('unexpected files created: %s' % stray)
